@@ -191,6 +191,7 @@ func g8Prefix(r *Repo, rep *Report, mainFn *FuncInfo) {
 	g := newGraph(mainFn.Decl.Body, mayReturnFn(info))
 	var setPos, newPos token.Pos
 	var setCall *ast.CallExpr
+	_ = setCall
 	ast.Inspect(mainFn.Decl, func(x ast.Node) bool {
 		c, ok := x.(*ast.CallExpr)
 		if !ok {
@@ -221,58 +222,264 @@ func g8Prefix(r *Repo, rep *Report, mainFn *FuncInfo) {
 	} else {
 		rep.fail(Finding{Rule: "G8", Key: "G8|SetPrefix-order", Where: []string{r.pos(setPos), r.pos(newPos)}, Msg: "main.main can sort/construct the plugins before all prefixes are set: ordering by prefix length would use stale prefixes"})
 	}
-	// SetPrefix argument provenance: variable assigned from strings.Replace(p.GetPrefix(), "derive", *prefix, 1), possibly overwritten by an override looked up by p.Name()
-	okProv := false
-	if setCall != nil && len(setCall.Args) == 1 {
-		if id, ok := setCall.Args[0].(*ast.Ident); ok {
-			v := info.Uses[id]
-			var defs []ast.Expr
-			ast.Inspect(mainFn.Decl, func(x ast.Node) bool {
-				as, ok := x.(*ast.AssignStmt)
-				if !ok {
-					return true
-				}
-				for i, l := range as.Lhs {
-					if lid, ok := l.(*ast.Ident); ok && (info.Defs[lid] == v || info.Uses[lid] == v) && i < len(as.Rhs) {
-						defs = append(defs, as.Rhs[i])
-					}
-				}
+	// SetPrefix argument provenance, for every SetPrefix call of main: the argument is strings.Replace(<plugin>.GetPrefix(),
+	// "derive", *prefix, 1) — directly or through a variable that is defined so on every path — or the -pluginprefix
+	// override looked up in a map, under the ok of that lookup; and no path through the plugin loop skips SetPrefix.
+	isReplace := func(e ast.Expr) (*ast.CallExpr, bool) {
+		x, ok := ast.Unparen(e).(*ast.CallExpr)
+		if !ok || !isPkgFunc(callee(info, x), "strings", "Replace") || len(x.Args) != 4 {
+			return nil, false
+		}
+		old := info.Types[x.Args[1]].Value
+		n := info.Types[x.Args[3]].Value
+		if old == nil || old.Kind() != constant.String || constant.StringVal(old) != "derive" || n == nil {
+			return nil, false
+		}
+		nv, _ := constant.Int64Val(n)
+		return x, nv == 1
+	}
+	var replaceOperandOK func(x *ast.CallExpr) bool
+	defsOf := func(v types.Object) []ast.Expr {
+		var defs []ast.Expr
+		ast.Inspect(mainFn.Decl, func(x ast.Node) bool {
+			as, ok := x.(*ast.AssignStmt)
+			if !ok {
 				return true
-			})
-			hasReplace, onlyKnown := false, true
-			replaceConditional := false
-			for _, d := range defs {
-				switch x := ast.Unparen(d).(type) {
-				case *ast.CallExpr:
-					if isPkgFunc(callee(info, x), "strings", "Replace") && len(x.Args) == 4 {
-						old := info.Types[x.Args[1]].Value
-						n := info.Types[x.Args[3]].Value
-						if old != nil && constant.StringVal(old) == "derive" && n != nil {
-							if nv, _ := constant.Int64Val(n); nv == 1 {
-								hasReplace = true
-								// the substitution applies to every plugin: it is executed on every path to SetPrefix
-								if !g.posDominates(x.Pos(), setPos) {
-									replaceConditional = true
-								}
-								continue
-							}
-						}
+			}
+			for i, l := range as.Lhs {
+				if lid, ok := l.(*ast.Ident); ok && (info.Defs[lid] == v || info.Uses[lid] == v) {
+					if len(as.Rhs) == len(as.Lhs) {
+						defs = append(defs, as.Rhs[i])
+					} else if len(as.Rhs) == 1 {
+						defs = append(defs, as.Rhs[0]) // v, ok := m[k]
 					}
-					if fn, ok := callee(info, x).(*types.Func); ok && fn.Name() == "GetPrefix" {
-						continue
-					}
-					onlyKnown = false
-				case *ast.Ident:
-					// override value from the overridePrefixes map lookup
-					continue
-				default:
-					onlyKnown = false
 				}
 			}
-			okProv = hasReplace && onlyKnown
-			if okProv && replaceConditional {
+			return true
+		})
+		return defs
+	}
+	isMapLookup := func(e ast.Expr) bool {
+		ix, ok := ast.Unparen(e).(*ast.IndexExpr)
+		if !ok {
+			return false
+		}
+		_, isMap := info.TypeOf(ix.X).Underlying().(*types.Map)
+		return isMap && nodeHas(ix.Index, func(m ast.Node) bool { s, ok := m.(*ast.SelectorExpr); return ok && s.Sel.Name == "Name" })
+	}
+	// what is rewritten is the plugin's default prefix: the first operand of the substitution is <plugin>.GetPrefix(), or a
+	// variable that holds nothing else when the substitution is evaluated (no override assigned to it can reach the call)
+	replaceOperandOK = func(x *ast.CallExpr) bool {
+		isGet := func(e ast.Expr) bool {
+			c, ok := ast.Unparen(e).(*ast.CallExpr)
+			if !ok {
+				return false
+			}
+			fn, ok := callee(info, c).(*types.Func)
+			return ok && fn.Name() == "GetPrefix"
+		}
+		op := ast.Unparen(x.Args[0])
+		if isGet(op) {
+			return true
+		}
+		id, ok := op.(*ast.Ident)
+		if !ok {
+			return false
+		}
+		v := info.Uses[id]
+		xb, _ := g.locate(x.Pos())
+		okAll := true
+		ast.Inspect(mainFn.Decl, func(n ast.Node) bool {
+			as, ok := n.(*ast.AssignStmt)
+			if !ok {
+				return true
+			}
+			for i, l := range as.Lhs {
+				lid, ok := l.(*ast.Ident)
+				if !ok || (info.Defs[lid] != v && info.Uses[lid] != v) {
+					continue
+				}
+				var rhs ast.Expr
+				if len(as.Rhs) == len(as.Lhs) {
+					rhs = as.Rhs[i]
+				} else {
+					rhs = as.Rhs[0]
+				}
+				if isGet(rhs) {
+					continue
+				}
+				if rc, isRep := isReplace(rhs); isRep && rc == x {
+					continue
+				}
+				// any other definition must not reach the substitution within one iteration
+				db, _ := g.locate(as.Pos())
+				if db == nil || xb == nil {
+					okAll = false
+					continue
+				}
+				if db == xb && as.Pos() < x.Pos() {
+					okAll = false
+					continue
+				}
+				if g.reachable(db.Succs, func(b *cfg.Block) bool { return b.Kind == cfg.KindRangeLoop })[xb] {
+					okAll = false
+				}
+			}
+			return true
+		})
+		return okAll
+	}
+	var setCalls []*ast.CallExpr
+	ast.Inspect(mainFn.Decl, func(x ast.Node) bool {
+		if c, ok := x.(*ast.CallExpr); ok {
+			if fn, ok := callee(info, c).(*types.Func); ok && fn.Pkg() != nil && fn.Pkg().Path() == modPath+"/derive" && fn.Name() == "SetPrefix" {
+				setCalls = append(setCalls, c)
+			}
+		}
+		return true
+	})
+	okProv := len(setCalls) > 0
+	for _, sc := range setCalls {
+		if len(sc.Args) != 1 {
+			okProv = false
+			continue
+		}
+		arg := ast.Unparen(sc.Args[0])
+		if rc, ok := isReplace(arg); ok {
+			if !replaceOperandOK(rc) {
 				okProv = false
-				rep.fail(Finding{Rule: "G8", Key: "G8|prefix-rewrite|conditional", Where: []string{r.pos(setPos)},
+			}
+			continue
+		}
+		id, ok := arg.(*ast.Ident)
+		if !ok {
+			okProv = false
+			continue
+		}
+		defs := defsOf(info.Uses[id])
+		onlyLookup := len(defs) > 0
+		for _, d := range defs {
+			if !isMapLookup(d) {
+				onlyLookup = false
+			}
+		}
+		if onlyLookup {
+			// the override itself: only where the lookup found one
+			guarded := false
+			sb, _ := g.locate(sc.Pos())
+			for _, b := range g.Blocks {
+				if len(b.Succs) != 2 || len(b.Nodes) == 0 || sb == nil {
+					continue
+				}
+				cond, isE := b.Nodes[len(b.Nodes)-1].(ast.Expr)
+				if !isE {
+					continue
+				}
+				cid, isID := ast.Unparen(cond).(*ast.Ident)
+				if !isID {
+					continue
+				}
+				for _, d := range defsOf(info.Uses[cid]) {
+					if isMapLookup(d) && (b.Succs[0] == sb || g.dominates(b.Succs[0], sb)) && !g.reachable([]*cfg.Block{b.Succs[1]}, func(x *cfg.Block) bool { return x.Kind == cfg.KindRangeLoop })[sb] {
+						guarded = true
+					}
+				}
+			}
+			if !guarded {
+				okProv = false
+				rep.fail(Finding{Rule: "G8", Key: "G8|prefix-rewrite|override-unguarded", Where: []string{r.pos(sc.Pos())},
+					Msg: "main.main sets a plugin's prefix to the -pluginprefix override without being under the ok of the lookup: plugins without an override get the empty prefix"})
+			}
+			continue
+		}
+		// a variable: defined by GetPrefix(), the substitution, and possibly the override
+		hasReplace, onlyKnown, replaceConditional := false, true, false
+		for _, d := range defs {
+			if x, ok := isReplace(d); ok {
+				hasReplace = true
+				if !replaceOperandOK(x) {
+					onlyKnown = false
+				}
+				// the substitution applies to every plugin: it is executed on every path to SetPrefix
+				if !g.posDominates(x.Pos(), sc.Pos()) {
+					replaceConditional = true
+				}
+				continue
+			}
+			switch x := ast.Unparen(d).(type) {
+			case *ast.CallExpr:
+				if fn, ok := callee(info, x).(*types.Func); ok && fn.Name() == "GetPrefix" {
+					continue
+				}
+				onlyKnown = false
+			case *ast.Ident:
+				// override value from the overridePrefixes map lookup
+				continue
+			case *ast.IndexExpr:
+				if isMapLookup(x) {
+					continue
+				}
+				onlyKnown = false
+			default:
+				onlyKnown = false
+			}
+		}
+		if !(hasReplace && onlyKnown) {
+			okProv = false
+		}
+		if hasReplace && onlyKnown && replaceConditional {
+			rep.fail(Finding{Rule: "G8", Key: "G8|prefix-rewrite|conditional", Where: []string{r.pos(sc.Pos())},
+				Msg: `main.main substitutes -prefix for "derive" only under a condition: for the plugins (or prefixes) the condition excludes, the default prefix stays, their calls match nothing and no function is generated for them (goderive exits 0 with an incomplete derived.gen.go)`})
+			return
+		}
+	}
+	// no way round the plugin loop without SetPrefix
+	if okProv {
+		for _, b := range g.Blocks {
+			if b.Kind != cfg.KindRangeLoop {
+				continue
+			}
+			rs, ok := b.Stmt.(*ast.RangeStmt)
+			if !ok {
+				continue
+			}
+			inLoop := false
+			for _, sc := range setCalls {
+				if rs.Body.Pos() <= sc.Pos() && sc.End() <= rs.Body.End() {
+					inLoop = true
+				}
+			}
+			if !inLoop {
+				continue
+			}
+			isSet := func(n ast.Node) bool {
+				c, ok := n.(*ast.CallExpr)
+				if !ok {
+					return false
+				}
+				for _, sc := range setCalls {
+					if sc == c {
+						return true
+					}
+				}
+				return false
+			}
+			var body []*cfg.Block
+			for _, sx := range b.Succs {
+				if sx.Kind == cfg.KindRangeBody {
+					body = append(body, sx)
+				}
+			}
+			reach := g.reachable(body, func(x *cfg.Block) bool { return blockHas(x, isSet) })
+			skip := reach[b]
+			for _, bb := range body {
+				if blockHas(bb, isSet) {
+					skip = false
+				}
+			}
+			if skip {
+				okProv = false
+				rep.fail(Finding{Rule: "G8", Key: "G8|prefix-rewrite|conditional", Where: []string{r.pos(rs.Pos())},
 					Msg: `main.main substitutes -prefix for "derive" only under a condition: for the plugins (or prefixes) the condition excludes, the default prefix stays, their calls match nothing and no function is generated for them (goderive exits 0 with an incomplete derived.gen.go)`})
 				return
 			}
@@ -362,6 +569,80 @@ func g8Sort(r *Repo, rep *Report) {
 		}
 		return true
 	})
+	var swapDecl *ast.FuncDecl
+	_ = swapDecl
+	if less == nil {
+		// sort.Sort(T(ps)) / sort.Stable(T(ps)) with a slice type T of this package: Less is the comparator, its receiver the
+		// slice being sorted; Len and Swap must be the canonical ones
+		ast.Inspect(sp.Decl, func(x ast.Node) bool {
+			c, ok := x.(*ast.CallExpr)
+			if !ok || len(c.Args) != 1 {
+				return true
+			}
+			fn, ok := callee(info, c).(*types.Func)
+			if !ok || fn.Pkg() == nil || fn.Pkg().Path() != "sort" || (fn.Name() != "Sort" && fn.Name() != "Stable") {
+				return true
+			}
+			nt, _ := info.TypeOf(c.Args[0]).(*types.Named)
+			if nt == nil {
+				return true
+			}
+			if _, isSlice := nt.Underlying().(*types.Slice); !isSlice {
+				return true
+			}
+			var lessD, lenD, swapD *FuncInfo
+			for i := 0; i < nt.NumMethods(); i++ {
+				m := nt.Method(i)
+				switch m.Name() {
+				case "Less":
+					lessD = r.Decls[m]
+				case "Len":
+					lenD = r.Decls[m]
+				case "Swap":
+					swapD = r.Decls[m]
+				}
+			}
+			if lessD == nil || lenD == nil || swapD == nil || lessD.Decl.Recv == nil || len(lessD.Decl.Recv.List) != 1 || len(lessD.Decl.Recv.List[0].Names) != 1 {
+				return true
+			}
+			recvName := func(d *FuncInfo) string {
+				if d.Decl.Recv != nil && len(d.Decl.Recv.List) == 1 && len(d.Decl.Recv.List[0].Names) == 1 {
+					return d.Decl.Recv.List[0].Names[0].Name
+				}
+				return "?"
+			}
+			// Len: return len(recv)
+			okLen := len(lenD.Decl.Body.List) == 1
+			if okLen {
+				ret, isRet := lenD.Decl.Body.List[0].(*ast.ReturnStmt)
+				okLen = isRet && len(ret.Results) == 1 && exprStr(ret.Results[0]) == "len("+recvName(lenD)+")"
+			}
+			// Swap: recv[i], recv[j] = recv[j], recv[i]
+			okSwap := len(swapD.Decl.Body.List) == 1 && swapD.Decl.Type.Params.NumFields() == 2
+			if okSwap {
+				var pn []string
+				for _, f := range swapD.Decl.Type.Params.List {
+					for _, n := range f.Names {
+						pn = append(pn, n.Name)
+					}
+				}
+				as, isAs := swapD.Decl.Body.List[0].(*ast.AssignStmt)
+				rn := recvName(swapD)
+				okSwap = isAs && len(pn) == 2 && len(as.Lhs) == 2 && len(as.Rhs) == 2 && as.Tok == token.ASSIGN &&
+					exprStr(as.Lhs[0]) == rn+"["+pn[0]+"]" && exprStr(as.Lhs[1]) == rn+"["+pn[1]+"]" &&
+					exprStr(as.Rhs[0]) == rn+"["+pn[1]+"]" && exprStr(as.Rhs[1]) == rn+"["+pn[0]+"]"
+			}
+			if !okLen || !okSwap {
+				rep.fail(Finding{Rule: "G8", Key: "G8|comparator|sort-interface", Where: []string{r.pos(c.Pos())},
+					Msg: fmt.Sprintf("sortPlugins sorts through %s, whose Len/Swap are not the canonical `len(s)` and `s[i], s[j] = s[j], s[i]` (Len ok: %v, Swap ok: %v): the plugins would not end up in the order Less describes", nt.Obj().Name(), okLen, okSwap)})
+				return true
+			}
+			less = &ast.FuncLit{Type: lessD.Decl.Type, Body: lessD.Decl.Body}
+			sorted = info.Defs[lessD.Decl.Recv.List[0].Names[0]]
+			swapDecl = swapD.Decl
+			return true
+		})
+	}
 	if less != nil {
 		// the comparator may index only the slice being sorted: sort.Slice permutes its argument and nothing else,
 		// so any side table indexed by position goes stale after the first swap.
@@ -399,9 +680,25 @@ func g8Sort(r *Repo, rep *Report) {
 			k++
 		}
 	}
+	// locals of the comparator that are defined once stand for their definition (left, right := ps[i].GetPrefix(), ps[j].GetPrefix())
+	env := map[types.Object]ast.Expr{}
+	res := func(e ast.Expr) ast.Expr {
+		for k := 0; k < 4; k++ {
+			id, ok := ast.Unparen(e).(*ast.Ident)
+			if !ok {
+				break
+			}
+			d, ok := env[info.Uses[id]]
+			if !ok {
+				break
+			}
+			e = d
+		}
+		return e
+	}
 	// side(e): "i" if e is ps[i].GetPrefix(), "j" for ps[j].GetPrefix()
 	side := func(e ast.Expr) string {
-		c, ok := ast.Unparen(e).(*ast.CallExpr)
+		c, ok := ast.Unparen(res(e)).(*ast.CallExpr)
 		if !ok {
 			return ""
 		}
@@ -460,7 +757,7 @@ func g8Sort(r *Repo, rep *Report) {
 			}
 			// len(A) op len(B) or A op B
 			lenOf := func(y ast.Expr) string {
-				c, ok := ast.Unparen(y).(*ast.CallExpr)
+				c, ok := ast.Unparen(res(y)).(*ast.CallExpr)
 				if !ok || len(c.Args) != 1 {
 					return ""
 				}
@@ -527,6 +824,26 @@ func g8Sort(r *Repo, rep *Report) {
 					if v, done := run(els, st); done {
 						return v, true
 					}
+				}
+			case *ast.AssignStmt:
+				// a := e, b := f: single definitions of locals, pure (calls of GetPrefix and len only)
+				if x.Tok != token.DEFINE || len(x.Lhs) != len(x.Rhs) {
+					undec = "assignment in comparator"
+					return false, true
+				}
+				for k, l := range x.Lhs {
+					id, ok := l.(*ast.Ident)
+					if !ok || info.Defs[id] == nil {
+						undec = "assignment in comparator"
+						return false, true
+					}
+					if side(x.Rhs[k]) == "" {
+						if c, ok := ast.Unparen(x.Rhs[k]).(*ast.CallExpr); !ok || len(c.Args) != 1 || exprStr(c.Fun) != "len" || side(c.Args[0]) == "" {
+							undec = "local `" + id.Name + "` defined as `" + exprStr(x.Rhs[k]) + "`"
+							return false, true
+						}
+					}
+					env[info.Defs[id]] = x.Rhs[k]
 				}
 			default:
 				undec = fmt.Sprintf("%T in comparator", s)
@@ -980,12 +1297,50 @@ func g27ProgressMeasure(r *Repo, rep *Report) {
 // call with the longer prefix is handed to the plugin with the shorter one.
 func g8PluginOrderFixed(r *Repo, rep *Report) {
 	n := 0
+	// slice types that sortPlugins — and nobody else — converts the plugin slice to in order to sort it through
+	// sort.Interface: their Swap method is sortPlugins' own permutation (its shape is decided by g8Sort)
+	sortTypes := map[*types.TypeName]bool{}
+	for pass := 0; pass < 2; pass++ {
+		for _, b := range r.bodies() {
+			if b.Pkg.Name != "derive" && b.Pkg.Name != "main" {
+				continue
+			}
+			inSort := b.Name == "derive.sortPlugins" || strings.HasPrefix(b.Name, "derive.sortPlugins$")
+			info := b.Pkg.TypesInfo
+			inspectOwn(b.Block, func(m ast.Node) bool {
+				c, ok := m.(*ast.CallExpr)
+				if !ok || len(c.Args) != 1 {
+					return true
+				}
+				tv, ok := info.Types[c.Fun]
+				if !ok || !tv.IsType() {
+					return true
+				}
+				nt, ok := tv.Type.(*types.Named)
+				if !ok {
+					return true
+				}
+				if pass == 0 && inSort {
+					sortTypes[nt.Obj()] = true
+				}
+				if pass == 1 && !inSort {
+					delete(sortTypes, nt.Obj())
+				}
+				return true
+			})
+		}
+	}
 	for _, b := range r.bodies() {
 		if b.Pkg.Name != "derive" && b.Pkg.Name != "main" {
 			continue
 		}
 		if b.Name == "derive.sortPlugins" || strings.HasPrefix(b.Name, "derive.sortPlugins$") {
 			continue
+		}
+		if b.Sig != nil && b.Sig.Recv() != nil && b.Owner != nil && b.Owner.Fn.Name() == "Swap" {
+			if nt, ok := b.Sig.Recv().Type().(*types.Named); ok && sortTypes[nt.Obj()] {
+				continue
+			}
 		}
 		info := b.Pkg.TypesInfo
 		isPluginSlice := func(e ast.Expr) bool {
